@@ -953,7 +953,7 @@ fn main() {
         ctx.family("source-unicode-escapes", &format!("{} hex strings (both sides of the 2/3/4/5/6/8-digit, surrogate and 10FFFF limits, invalid digits) as \\u{{..}} escape, closed / unclosed / without brace / upper-case U, in chars content, between characters, in lig char and original_chars, and in an unterminated string", hexes.len()), us.len() as u64, |i, acc| check_source(i, &us[i as usize], acc));
         // truncation at every position and a one-character fault at every position of the printed text of every node kind
         let base: Vec<String> = menus(|m| m.reduced.iter().map(|h| h.to_string()).collect());
-        let faults: [&str; 9] = ["", "\"", "(", ")", "[", "]", "#", "\\", "é"];
+        let faults: [&str; 11] = ["", "\"", "(", ")", "[", "]", "#", "\\", "é", "\r", "#\r"];
         let mut cuts: Vec<(usize, usize, usize)> = vec![]; // (text, char position, kind: 0 = prefix, 1.. = replace the character by faults[kind-1])
         for (t, text) in base.iter().enumerate() {
             for (pos, _) in text.char_indices() {
@@ -975,6 +975,67 @@ fn main() {
             }
             check_source(i, &s, acc);
         });
+        // two passes (the bracket pre-pass and the tokenizer) must agree on where a comment and a string end: every
+        // delimiter of one construct inside the other, every comment ending, inside a bracketed region with more brackets after it
+        let pres = ["", "a(", "hbox(content=[ ", "glue(1pt, ", "hbox(content=[chars(\"a\") ", "disc(pre_break=[kern(1pt)], post_break=[", "vbox(content=[hbox(content=["];
+        let bodies = ["", " note", "(", "[", ")", "]", "\"", "([", "])", ")(", "é日𝄞(", "#", "\\", "chars(\"x\")"];
+        let terms = ["\n", "\r\n", "\r", ""];
+        let conts = ["", "\n", "(\n) b()", " chars(\"x\")\n ]) kern(1pt)", "1pt)\nkern(2pt)", "])\nglue()", ")\n)", "]\n]) chars(\"y\")", " [ ( \n", "\r(\r[\n]) penalty(1)", "\"\n\")"];
+        let mut cs: Vec<(String, String, bool)> = vec![]; // (source, the same source with the comment removed up to the next LF, lone CR then a bracket)
+        for pre in pres {
+            for body in bodies {
+                for term in terms {
+                    for cont in conts {
+                        let tail = format!("{body}{term}{cont}");
+                        let reference = match tail.find('\n') {
+                            Some(k) => format!("{pre}{}", &tail[k..]),
+                            None => pre.to_string(),
+                        };
+                        // a lone CR (not followed by LF) inside the comment, and a bracket between it and the end of the comment
+                        let end = tail.find('\n').unwrap_or(tail.len());
+                        let lone_cr_then_bracket = tail[..end].char_indices().any(|(k, c)| c == '\r' && !tail[k + 1..].starts_with('\n') && tail[k + 1..end].contains(['(', ')', '[', ']']));
+                        cs.push((format!("{pre}#{tail}"), reference, lone_cr_then_bracket));
+                    }
+                }
+            }
+        }
+        // the other direction: the comment character, brackets, CR and LF inside a string
+        for inner in ["#", "(", "])", "#(", "# [\n", "\r", "\r(", "a#\r]\n)", "\\\"#(", "é#日(𝄞"] {
+            for (pre, post) in [("chars(\"", "\")"), ("hbox(content=[chars(\"", "\") chars(\"x\")]) kern(1pt)"), ("lig(\"a\", \"", "\")\nglue()")] {
+                let src = format!("{pre}{inner}{post}");
+                cs.push((src.clone(), src, false));
+            }
+        }
+        let cs = &cs;
+        ctx.family("source-comments", &format!("{} bracketed prefixes x `#` + {} comment bodies (empty, text, every bracket, quote, `#`, backslash, a call, multi-byte) x endings LF / CRLF / lone CR / none x {} continuations with further bracket pairs; and `#`, brackets, CR, LF inside strings. The parse must equal the parse of the text with the comment removed up to the next LF (lang/mod.rs: a comment runs to the end of the line)", pres.len(), bodies.len(), conts.len()), cs.len() as u64, |i, acc| {
+            let (src, reference, lone) = &cs[i as usize];
+            if *lone {
+                acc.count("comment_contains_lone_cr_then_bracket");
+            }
+            if src.contains("#(") || src.contains("#[") || src.contains("#\"") {
+                acc.count("comment_starts_with_bracket_or_quote");
+            }
+            let before = acc.fail_count;
+            check_source(i, src, acc);
+            if acc.fail_count > before || src == reference {
+                return;
+            }
+            // same meaning as the text without the comment
+            let case = || json!({"kind": "source", "text": src, "without_comment": reference});
+            match (catch(|| parse_h(src)), catch(|| parse_h(reference))) {
+                (Ok(a), Ok(b)) => {
+                    let same = match (&a, &b) {
+                        (Ok(x), Ok(y)) => x == y,
+                        (Err(_), Err(_)) => true,
+                        _ => false,
+                    };
+                    if !same {
+                        fail(acc, i, case(), format!("{b:?}"), format!("{a:?}"), "a comment changes what the text parses to (compared with the same text without the comment)");
+                    }
+                }
+                (_, Err(p)) | (Err(p), _) => fail(acc, i, case(), "a list or located errors", p.describe(), "parse_horizontal_list panicked: comment family"),
+            }
+        });
         let ns = number_sources(&numbers);
         let ns = &ns;
         ctx.family("source-numbers", &format!("{} number lexemes (sign x integer part up to 20 digits x fraction x unit) as penalty / kern / glue stretch+shrink / font / glue_ratio argument and bare", numbers.len()), ns.len() as u64, |i, acc| check_source(i, &ns[i as usize], acc));
@@ -982,6 +1043,8 @@ fn main() {
         let am = &am;
         ctx.family("source-argument-matrix", &format!("every function x every parameter (positional, keyword, two positional) x {} values of every type and near misses; duplicate, unknown, too many arguments", boxl::ARG_VALUES.len()), am.len() as u64, |i, acc| check_source(i, &am[i as usize], acc));
     }
+    ctx.require("comment_contains_lone_cr_then_bracket", "a comment holds a lone CR followed by a bracket before the next LF");
+    ctx.require("comment_starts_with_bracket_or_quote", "`#` immediately followed by a bracket or a quote");
     ctx.require("vbox_display_route", "a vbox printed through the Display of ds::VBox");
     ctx.require("source_truncated", "a printed text cut at an inner position");
     ctx.require("fault_after_multibyte_text", "a one-character fault placed after multi-byte text");
